@@ -5,6 +5,7 @@ import (
 	"errors"
 	"fmt"
 	"io"
+	"net/mail"
 	"os"
 
 	"github.com/inbucket/inbucket/v3/pkg/config"
@@ -158,6 +159,10 @@ func (h *Host) handleBeforeMailFromAccepted(session event.SMTPSession) *event.SM
 	}
 	defer h.pool.putState(ls)
 
+	// The script gets its own copies of the addresses; only what it returns counts.
+	session.From = copyAddress(session.From)
+	session.To = copyAddresses(session.To)
+
 	logger.Debug().Msgf("Calling Lua function with %+v", session)
 	if err := ls.CallByParam(
 		lua.P{Fn: ib.Before.MailFromAccepted, NRet: 1, Protect: true},
@@ -185,6 +190,10 @@ func (h *Host) handleBeforeRcptToAccepted(session event.SMTPSession) *event.SMTP
 		return nil
 	}
 	defer h.pool.putState(ls)
+
+	// The script gets its own copies of the addresses; only what it returns counts.
+	session.From = copyAddress(session.From)
+	session.To = copyAddresses(session.To)
 
 	logger.Debug().Msgf("Calling Lua function with %+v", session)
 	if err := ls.CallByParam(
@@ -214,6 +223,12 @@ func (h *Host) handleBeforeMessageStored(msg event.InboundMessage) *event.Inboun
 	}
 	defer h.pool.putState(ls)
 
+	// The script gets its own copies of the addresses and mailboxes; a message it edits in
+	// place but does not return must not change what is delivered.
+	msg.Mailboxes = append([]string(nil), msg.Mailboxes...)
+	msg.From = copyAddress(msg.From)
+	msg.To = copyAddresses(msg.To)
+
 	logger.Debug().Msgf("Calling Lua function with %+v", msg)
 	if err := ls.CallByParam(
 		lua.P{Fn: ib.Before.MessageStored, NRet: 1, Protect: true},
@@ -237,6 +252,28 @@ func (h *Host) handleBeforeMessageStored(msg event.InboundMessage) *event.Inboun
 	}
 
 	return result
+}
+
+// copyAddress returns a copy of the address.  The brokers hand each listener a copy of the event
+// struct, but the addresses inside it are shared with the emitter and the other listeners.
+func copyAddress(a *mail.Address) *mail.Address {
+	if a == nil {
+		return nil
+	}
+	c := *a
+	return &c
+}
+
+// copyAddresses returns a copy of the address list and of every address in it.
+func copyAddresses(list []*mail.Address) []*mail.Address {
+	if list == nil {
+		return nil
+	}
+	out := make([]*mail.Address, len(list))
+	for i, a := range list {
+		out[i] = copyAddress(a)
+	}
+	return out
 }
 
 // Common preparation for calling Lua functions.
